@@ -1458,6 +1458,11 @@ func (r *RecordReader) parseReadLayout(layout string) error {
 				for i := uint64(0); i < *headersNum; i++ {
 					rec.Key, rec.Value = nil, nil
 					if err := inr.next(rec); err != nil {
+						if err == io.EOF {
+							// The header count promised another
+							// header: the record is cut off.
+							err = io.ErrUnexpectedEOF
+						}
 						return err
 					}
 					rec.Headers = append(rec.Headers, RecordHeader{Key: string(rec.Key), Value: rec.Value})
@@ -1787,6 +1792,11 @@ func (r *RecordReader) next(rec *Record) error {
 		// on a short slice, so surface the truncation as the unexpected EOF
 		// that ReadRecord's doc already promises for a mid-record EOF.
 		if fn.read.size > 0 && len(r.buf) < fn.read.size {
+			return io.ErrUnexpectedEOF
+		}
+		// The same holds for a read whose size came from an earlier size
+		// field: a short buffer is a record cut off mid way, not a value.
+		if fn.read.sizefn != nil && len(r.buf) < fn.read.sizefn() {
 			return io.ErrUnexpectedEOF
 		}
 
